@@ -206,9 +206,18 @@ static std::string observables()
     return s;
 }
 
+static bool g_lean = false; // profile "cache": thousands of variables, only the calls and their definitions are recorded
 static void emit(const std::string &head)
 {
-    g_lines.push_back("{" + head + "," + observables() + "}");
+    if (g_lean)
+    {
+        std::string s = "{" + head + ",\"hooks\":[";
+        for (size_t i = 0; i < g_tr.hooks.size(); ++i)
+            s += (i ? "," : "") + g_tr.hooks[i];
+        g_lines.push_back(s + "]}");
+    }
+    else
+        g_lines.push_back("{" + head + "," + observables() + "}");
     g_tr.hooks.clear();
 }
 
@@ -504,6 +513,7 @@ static void begin_exec(const std::string &profile, size_t dl_size)
     verif::current() = &g_tr;
     g_net.reset(new net(dl_size));
     g_tr.nt = g_net.get();
+    g_lean = profile == "cache";
     g_lines.push_back("{\"e\":\"reset\",\"profile\":\"" + profile + "\",\"dlsize\":" + std::to_string(dl_size) + "}");
 }
 static void end_exec()
@@ -528,6 +538,7 @@ struct gen
 {
     std::mt19937 rng;
     std::string profile;
+    int n_cache = 0;
     std::vector<long> lits;              // positive literal indices usable in clauses and assumptions
     std::vector<var> lra_vars;           // variables usable in linear expressions (originals and derived)
     std::vector<var> idl_tps, rdl_tps;   // time points (origin excluded)
@@ -805,8 +816,51 @@ struct gen
         }
     }
 
+    // profile "cache": the expression cache of the reified constructors. Plain unconstrained variables only; every pair and
+    // every triple of the first literals is requested for every constructor (a literal shared by two different formulas
+    // is what the trace specification looks for), then seeded requests with negated / repeated arguments and repeats
+    void cache_execution(int which)
+    {
+        begin_exec(profile, 16);
+        const int nv = 22;
+        for (int i = 0; i < nv; ++i)
+            run("{\"e\":\"new_var\"}");
+        static const char *ks[] = {"new_conj", "new_disj", "new_exo", "new_amo", "new_eq"};
+        const char *k = ks[which % 4];
+        auto L = [](int v, bool pos) { return (long)(2 * v + (pos ? 1 : 0)); };
+        const bool pos = (which / 4) % 2 == 0;
+        for (int a = 1; a <= nv; ++a)
+            for (int b = a + 1; b <= nv; ++b)
+            {
+                run(std::string("{\"e\":\"") + k + "\",\"args\":" + jl({L(a, pos), L(b, pos)}) + "}");
+                if ((a + b) % 7 == 0)
+                    run(std::string("{\"e\":\"new_eq\",\"args\":") + jl({L(a, pos), L(b, !pos)}) + "}");
+            }
+        for (int a = 1; a <= 19; ++a)
+            for (int b = a + 1; b <= 20; ++b)
+                for (int c = b + 1; c <= nv; ++c)
+                    if ((a + 2 * b + 3 * c + which) % 3 == 0 || b - a == 1)
+                        run(std::string("{\"e\":\"") + k + "\",\"args\":" + jl({L(a, pos), L(b, pos), L(c, pos)}) + "}");
+        for (int i = 0; i < 300; ++i)
+        {
+            std::vector<long> args;
+            for (int j = 0, n = 2 + rnd(3); j < n; ++j)
+                args.push_back(L(1 + rnd(nv), coin(50)));
+            if (coin(20))
+                args[0] = args[1];
+            const int kk = rnd(5);
+            run(std::string("{\"e\":\"") + ks[kk] + "\",\"args\":" + jl(std::vector<long>(args.begin(), args.begin() + ((kk == 4 || coin(50)) ? 2 : args.size()))) + "}");
+        }
+        end_exec();
+    }
+
     void execution(int max_ops)
     {
+        if (profile == "cache")
+        {
+            cache_execution(n_cache++);
+            return;
+        }
         lits.clear();
         lra_vars.clear();
         idl_tps.clear();
